@@ -10,6 +10,7 @@ import (
 	"fmt"
 	"os"
 	"runtime/debug"
+	"time"
 
 	"verifharness/common"
 )
@@ -33,7 +34,7 @@ func main() {
 	defer c.Finish()
 	worker = common.NewWorker()
 	defer worker.Close()
-	c.Res.Rule = "name cases: byte strings (all 256 single bytes, each byte between two letters, all pairs and (thorough: all, quick: sampled) triples of a 30-symbol hostile alphabet, keywords, random strings); distinct = distinct byte string; non-trivial = escaping changes the string (names), contains % or outer white space (unescape), lexes as one Name (lexer)"
+	c.Res.Rule = "name cases: byte strings (all 256 single bytes, each byte between two letters, all pairs and (thorough: all, quick: sampled) triples of a 30-symbol hostile alphabet, keywords, random strings); distinct = distinct byte string; non-trivial = escaping changes the string (names), contains % or outer white space (unescape), lexes as one Name (lexer). Document cases: seeded abstract documents (2-5 schemas: objects with 1-9 primitive / $ref / array / inline-object properties and a required list of any length, array / enum / primitive definitions, acyclic references; 1-4 path+method endpoints with path / query / header / body parameters and 1-3 responses) rendered as OpenAPI 2 JSON, OpenAPI 3 JSON, XSD, or CREATE TABLE DDL (postgres / mysql / spanner), with plain, hostile (\" = @ ~ . : + $ & blanks non-ASCII ...) or keyword / builtin names; one case = one document imported twice and compiled; non-trivial = the document has at least one property"
 	if c.Replay != "" {
 		b, err := os.ReadFile(c.Replay)
 		if err != nil {
@@ -76,6 +77,8 @@ func main() {
 		}
 		return
 	}
+	tn := time.Now()
 	namesStream(c)
+	c.Res.Notes = append(c.Res.Notes, fmt.Sprintf("name streams: %.1fs", time.Since(tn).Seconds()))
 	docsStream(c)
 }
